@@ -19,6 +19,11 @@
   statement (P2's *output* from P1's end state equals P2's output from the initial state when they share
   no names) is a relational invariance of the evaluator under adding unrelated bindings and under the
   renaming of arena indexes; it is decided by the C19 metamorphic check (three runs per pair).
+  The full statement is in fact FALSE of the code for one kind of P2 (KNOWN-FINDING C19-stray-else): the flag an
+  else-less taken `যদি` leaves is read by a P2 that *begins* with a stray `অথবা` — alone that P2 is the error
+  "অথবা without যদি".  `stray_else_observes_flag_residue` proves it of the model with a concrete witness (replayed on
+  the implementation by the check); "no later statement reads the residue" is therefore stated for chains that push
+  their own flag first (`if_else_ignore_deeper_flags`), which is every chain of a well-formed fragment.
 -/
 import Pakhi.Props.C02
 import Pakhi.Lemmas.FrameInv
@@ -113,6 +118,24 @@ theorem fragment_leaves_frames {prog : List Stmt} {α : Type} (h : Structured pr
   have := stmt_refines h D t F k s none false r hw hc hk rfl hsuf hs hrun hr
   rw [hsem] at this
   exact ⟨this.2.1.loops, this.2.1.depth, this.2.1.flags⟩
+
+/-! ### The one observable residue (KNOWN-FINDING C19-stray-else) -/
+
+private def m0 : Meta := ⟨1, []⟩
+private def w0 : World := { fs := [], stdin := [], platform := [] }
+/-- P1 = `যদি সত্য { } দেখাও "k";` -/
+def strayP1 : List Stmt := [.if (.bool true m0) m0, .blockStart m0, .blockEnd m0, .print (.str ['k'] m0) m0]
+/-- P2 = `অথবা { দেখাও "x"; } দেখাও "g";` -/
+def strayP2 : List Stmt := [.else m0, .blockStart m0, .print (.str ['x'] m0) m0, .blockEnd m0, .print (.str ['g'] m0) m0]
+def endOf (prog : List Stmt) : Res St := runLoop (prog ++ [.eos m0]) .never 100 0 (prog ++ [.eos m0]) (St.init w0)
+
+/-- **the compose statement fails for a fragment that begins with a stray `অথবা`**: alone it is an error, after an
+    else-less taken conditional it is taken for that conditional's else and skipped — the run ends normally and prints
+    what follows.  (Concrete witness, kernel-evaluated; the same two programs are case `C19-stray-else` of the check.) -/
+theorem stray_else_observes_flag_residue :
+    (match endOf strayP2 with | .err e => e.msg == "else-without-if".toList | _ => false) = true ∧
+    (match endOf strayP1 with | .ok s => s.out.length == 2 | _ => false) = true ∧
+    (match endOf (strayP1 ++ strayP2) with | .ok s => s.out.length == 4 | _ => false) = true := by decide
 
 end C19
 end Pakhi
